@@ -96,7 +96,9 @@ func (root *Root) ResolveExecutable(
 				// over the default value.
 				if v, has := vars[vd.Name]; has {
 					if ic, _ := vd.Type.(InCoercer); ic != nil { // validated in SDL validation
-						v, err = ic.CoerceIn(v)
+						// Lists and input objects are coerced in place, the
+						// caller's value is left as it is.
+						v, err = ic.CoerceIn(copyValue(v))
 					}
 					if err != nil {
 						var gerr *Error
